@@ -1062,8 +1062,10 @@ def merged_calls_role_inconsistent(meta, g):
             continue
         try:
             per_call.append(bparams(signatures.forwards(
-                osig, sigtools.signature(callee), c['n'], *c['names'], use_varargs=use_va, use_varkwargs=use_kw,
-                hide_args=c['star'] in ('other', 'double'), hide_kwargs=c['dstar'] in ('other', 'double'))))
+                osig, sigtools.signature(callee), c['n'] + (1 if c.get('dress') == 'partial-route' else 0), *c['names'],
+                use_varargs=use_va, use_varkwargs=use_kw,
+                hide_args=c['star'] in ('other', 'double'), hide_kwargs=c['dstar'] in ('other', 'double'),
+                partial=(meta['route'] == 'inner_partial' or bool(c.get('as_partial'))))))
         except ValueError:
             return False
     return len(per_call) >= 2 and not oracle.strictly_role_consistent(per_call)
